@@ -2089,3 +2089,53 @@ Example C04_inventory2_instances :
   /\ inp_split_prefix_str [47; 47] [9; 47; 10; 47; 120] = Some [120]
   /\ snd (FormUrlencoded.decode_utf8_lossy (pd_cow [37; 70; 70; 97])) = [65533; 97].
 Proof. vm_compute. repeat split; try reflexivity; intros H; discriminate H. Qed.
+
+(* FINDING F-C04-9 ON THE REPAIRED FAMILY, FOR EVERY n (Proofs/C04_Quad2.v).  C04_9_quadratic_statement speaks of the family
+   mime_distinct, whose counter has 10 digits of fuel: above n = 10^10 its names repeat, so that statement is not what the
+   finding says (superseded, kept as a Definition; proved up to 10^10 in C04_9_quadratic_partial).  mime_distinct2 is the
+   family the finding describes - "a/b" followed by ";p0=1;p1=1;...;p<n-1>=1", every counter written with as many decimal
+   digits as it needs - and C04_9_quadratic_statement2 is the statement for it. *)
+From RU Require Proofs.C04_Quad2.
+Definition C04_9_quadratic_statement2 : Prop :=
+  forall n, N.of_nat n * (N.of_nat n - 1) <= 2 * C04_CostMime.mime_parse_cost (C04_Quad2.mime_distinct2 n).
+
+Theorem C04_9_quadratic : C04_9_quadratic_statement2.
+Proof. exact C04_Quad2.f_c04_9_all_n2. Qed.
+Check C04_9_quadratic : forall n, N.of_nat n * (N.of_nat n - 1) <= 2 * C04_CostMime.mime_parse_cost (C04_Quad2.mime_distinct2 n).
+Print Assumptions C04_9_quadratic.
+
+(* the repaired family: it IS the old one up to 10^10 parameters, it is the member of every bounded-counter family with
+   enough digits, it consists of &str values, and it is short - F + 5 bytes per parameter while n <= 10^(F+1), i.e.
+   |input| = O(n log n) *)
+Theorem C04_9_family :
+  (forall n, N.of_nat n <= 10000000000 -> C04_Quad2.mime_distinct2 n = C04_CostMime.mime_distinct n)
+  /\ (forall F n, N.of_nat n <= 10 ^ N.of_nat (S F) -> C04_Quad2.mime_distinct2 n = C04_Quad.mime_distinct_f (S F) n)
+  /\ (forall n, usv_list (C04_Quad2.mime_distinct2 n))
+  /\ (forall F n, N.of_nat n <= 10 ^ N.of_nat (S F) ->
+        nlen (C04_Quad2.mime_distinct2 n) <= (N.of_nat (S F) + 4) * N.of_nat n + 3).
+Proof.
+  exact (conj C04_Quad2.mime_distinct2_old (conj C04_Quad2.mime_distinct2_family
+        (conj C04_Quad2.mime_distinct2_usv C04_Quad2.mime_distinct2_len))).
+Qed.
+Check C04_9_family :
+  (forall n, N.of_nat n <= 10000000000 -> C04_Quad2.mime_distinct2 n = C04_CostMime.mime_distinct n)
+  /\ (forall F n, N.of_nat n <= 10 ^ N.of_nat (S F) -> C04_Quad2.mime_distinct2 n = C04_Quad.mime_distinct_f (S F) n)
+  /\ (forall n, usv_list (C04_Quad2.mime_distinct2 n))
+  /\ (forall F n, N.of_nat n <= 10 ^ N.of_nat (S F) ->
+        nlen (C04_Quad2.mime_distinct2 n) <= (N.of_nat (S F) + 4) * N.of_nat n + 3).
+Print Assumptions C04_9_family.
+
+(* hence NO linear bound a * |input| + b holds for Mime::from_str in the cost model: for every a, b a &str of the family
+   costs more (the counterpart of C04_8_refuted for the path state; the matching upper bound is C04_cost_mime:
+   (14 + P)(n + 1) + 4 with P the number of parameters) *)
+Theorem C04_9_refuted : forall a b : N, exists s, usv_list s /\ a * nlen s + b < C04_CostMime.mime_parse_cost s.
+Proof. exact C04_Quad2.f_c04_9_no_linear. Qed.
+Check C04_9_refuted : forall a b : N, exists s, usv_list s /\ a * nlen s + b < C04_CostMime.mime_parse_cost s.
+Print Assumptions C04_9_refuted.
+
+(* the family at n = 12: the text, that it parses to 12 parameters, and its cost *)
+Example C04_9_family_instance :
+  C04_Quad2.mime_distinct2 3 = [97; 47; 98; 59; 112; 48; 61; 49; 59; 112; 49; 61; 49; 59; 112; 50; 61; 49]
+  /\ C04_CostMime.n_params (C04_Quad2.mime_distinct2 12) = 12
+  /\ 12 * 11 <= 2 * C04_CostMime.mime_parse_cost (C04_Quad2.mime_distinct2 12).
+Proof. vm_compute. repeat split; intros H; discriminate H. Qed.
